@@ -95,6 +95,67 @@ theorem trace_query_full_range (parts : List Part) (hbs : BoundsSound parts) (ti
         rw [this] at hmc; cases hmc
       rw [this]; rfl
 
+/-! ## 1b. reading one part by trace id -/
+
+/-- **`searchPBM` returns the first primary block that can contain the trace.** For a sorted index
+    of first trace ids and a wanted id not below the first one: reading starts at a block `r` whose
+    first id is `≤ tid`; every earlier block ends strictly before `tid` (its successor's first id is
+    `< tid`), so nothing of the trace is skipped - in particular when `tid` equals the first id of a
+    block `j > 0` reading starts at `j - 1`, where the trace may have begun; and block `r` itself can
+    contain the trace (`tid ≤` the next block's first id). -/
+theorem getD_eq_getElem' (l : List Nat) (i : Nat) (h : i < l.length) : l.getD i 0 = l[i] := by
+  simp [List.getD, List.getElem?_eq_getElem h]
+
+theorem searchPBM_spec (ids : List Nat) (tid : Nat) (hs : ids.Pairwise (· ≤ ·))
+    (hne : ids ≠ []) (hle : ids.getD 0 0 ≤ tid) :
+    ∃ r, searchPBM ids tid = some r ∧ r < ids.length ∧ ids.getD r 0 ≤ tid ∧
+      (∀ k, k < r → ids.getD (k + 1) 0 < tid) ∧ (r + 1 < ids.length → tid ≤ ids.getD (r + 1) 0) := by
+  cases ids with
+  | nil => exact absurd rfl hne
+  | cons first rest =>
+    simp only [List.getD_cons_zero] at hle
+    unfold searchPBM
+    simp only
+    have hlt : ¬ tid < first := by omega
+    rw [if_neg hlt]
+    by_cases heq : tid = first
+    · rw [if_pos heq]
+      refine ⟨0, rfl, by simp, by simp [heq], fun k hk => by omega, fun h1 => ?_⟩
+      have := (List.pairwise_cons.mp hs).1
+      cases rest with
+      | nil => simp at h1
+      | cons x xs => simp only [List.getD_cons_succ, List.getD_cons_zero]; have := this x (by simp); omega
+    · rw [if_neg heq]
+      have hpos : 0 < sortSearch (first :: rest) (fun x => decide (tid ≤ x)) := by
+        unfold sortSearch
+        rw [List.findIdx_cons]
+        have : decide (tid ≤ first) = false := by simp; omega
+        simp [this]
+      generalize hn : sortSearch (first :: rest) (fun x => decide (tid ≤ x)) = n at hpos
+      have hnle : n ≤ (first :: rest).length := by rw [← hn]; exact List.findIdx_le_length
+      have hbefore : ∀ j, j < n → (first :: rest).getD j 0 < tid := by
+        intro j hj
+        have hjl : j < (first :: rest).length := by omega
+        have := List.not_of_lt_findIdx (p := fun x => decide (tid ≤ x)) (xs := first :: rest) (i := j) (by unfold sortSearch at hn; omega)
+        rw [getD_eq_getElem' _ _ hjl]
+        simpa using this
+      have hn0 : n ≠ 0 := by omega
+      rw [if_neg hn0]
+      refine ⟨n - 1, rfl, by omega, Nat.le_of_lt (hbefore (n - 1) (by omega)), fun k hk => hbefore (k + 1) (by omega), ?_⟩
+      intro h1
+      have hnl : n < (first :: rest).length := by omega
+      have := List.findIdx_getElem (p := fun x => decide (tid ≤ x)) (xs := first :: rest) (w := by unfold sortSearch at hn; omega)
+      have hidx : n - 1 + 1 = n := by omega
+      rw [hidx, getD_eq_getElem' _ _ hnl]
+      unfold sortSearch at hn
+      simp only [hn] at this
+      simpa using this
+
+/-- with duplicates across consecutive primary blocks: id 5 opens block 1 and block 2, the trace may
+    have begun in block 0. -/
+example : searchPBM [1, 5, 5, 9] 5 = some 0 ∧ searchPBM [1, 5, 5, 9] 6 = some 2 ∧ searchPBM [1, 5, 5, 9] 12 = some 3 := by
+  decide
+
 /-! ## 2. merge without a sampler -/
 
 /-- **No sampler ⇒ lossless.** Whatever the part layout and the merge selection, a merge with no
